@@ -101,9 +101,10 @@ CHECKS = {
        "is not modelled.",
   tech="Lean 4 proof (case analysis, list congruence) + bit-identity differential runs across encodings", ref='7 C08'),
  'C09': dict(
-  text="Proof (Lean 4) on the same machine with fault plans: a failed job makes the caller's outcome `raised` (fail_loud), ok "
-       "implies no failure, a faulting io step releases its lock and ends the job failed, CLI exit status 0 iff nothing raised "
-       "(4 theorems, interim; the reachable-state theorems are part of C04's full set). Tied to the code by fault enumeration through "
+  text="Proof (Lean 4) on the same machine with fault plans: a failed job makes the caller's outcome `raised` (fail_loud); "
+       "under every fault plan: no deadlock, locks free in every final state, every submitted job finishes exactly once (a failure "
+       "does not cancel the others), a job with a faulting step is recorded as failed, outcome ok implies every block completed its "
+       "corrected (and parameter) write; a faulting io step releases its lock; CLI exit status 0 iff nothing raised (9 theorems). Tied to the code by fault enumeration through "
        "the interposed datasets/model hooks: every (site in source read, reference read, fit, apply, corrected write, parameter "
        "write) x block x threads 1/2/4 (exhaustive in the thorough tier, a seeded third in the quick tier): the API raises, "
        "terminates within a watchdog, all four datasets closed, all locks free, reader reusable with the reference result; "
